@@ -43,9 +43,19 @@ def check(run, ctx):
                   decides="every detected pattern gets its own violation kind and its own detect_* switch")
     for pkg, info in RUST_LINTERS.items():
         lm = repo.mod(f"src.linters.{pkg}.linter")
-        builders = repo.mod(f"src.linters.{pkg}.linter").assigns.get("_PATTERN_BUILDERS")
+        # the two pattern tables, by name or (when a private constant was renamed) by shape: module-level dict literals
+        # with string keys whose values are builder functions / names of detect_* config switches
+        def _table(name, pred):
+            e_ = lm.assigns.get(name)
+            if isinstance(e_, ast.Dict):
+                return e_
+            c_ = [v for v in lm.assigns.values() if isinstance(v, ast.Dict) and v.keys and all(isinstance(k, ast.Constant) and isinstance(k.value, str) for k in v.keys) and pred(v)]
+            return c_[0] if len(c_) == 1 else None
+        builders = _table("_PATTERN_BUILDERS", lambda d: all(isinstance(v, ast.Name) for v in d.values))
+        cfg_tab = _table("_PATTERN_CONFIG_KEYS", lambda d: all(isinstance(v, ast.Constant) and isinstance(v.value, str) and v.value.startswith("detect_") for v in d.values))
+        cfg_tab_name = next((n_ for n_, v_ in lm.assigns.items() if v_ is cfg_tab), "_PATTERN_CONFIG_KEYS")
         keys_b = {k.value for k in builders.keys if isinstance(k, ast.Constant)} if isinstance(builders, ast.Dict) else None
-        cfgkeys = repo.fold(lm, lm.assigns.get("_PATTERN_CONFIG_KEYS"))
+        cfgkeys = repo.fold(lm, cfg_tab)
         run.require(keys_b is not None and isinstance(cfgkeys, dict), f"{pkg}: pattern tables not found")
         cands = [f for f in repo.funcs_in(f"src.linters.{pkg}.rust_analyzer.") if f.qual.endswith(info["classifier"])]
         run.require(len(cands) == 1, f"{pkg}: classifier {info['classifier']} not found")
@@ -73,8 +83,9 @@ def check(run, ctx):
         vals = [ast.unparse(v) for v in builders.values]
         (run.ok(R1, f"{pkg} builders distinct", ",".join(vals)) if len(set(vals)) == len(vals) else run.finding(R1, f"{pkg} _PATTERN_BUILDERS", f"duplicate-builder:{vals}", "two patterns share one builder", lm.rel))
         # skip predicate consults the table with call.pattern and negates the switch
-        sk = repo.func(f"src.linters.{pkg}.linter._should_skip_call")
-        lookups = [n for n in ast.walk(sk.node) if isinstance(n, ast.Call) and call_name(n) == "get" and ast.unparse(n.func.value) == "_PATTERN_CONFIG_KEYS" and n.args and isinstance(n.args[0], ast.Attribute) and n.args[0].attr == "pattern"]
+        sk = repo.func_by_role(f"src.linters.{pkg}.linter._should_skip_call", "decides per call whether it is skipped (test code / switched-off pattern)",
+                               lambda g: g.cls is None and any(isinstance(n, ast.Attribute) and n.attr == "is_in_test" for n in ast.walk(g.node)) and any(isinstance(n, ast.Return) for n in ast.walk(g.node)))
+        lookups = [n for n in ast.walk(sk.node) if isinstance(n, ast.Call) and call_name(n) == "get" and ast.unparse(n.func.value) == cfg_tab_name and n.args and isinstance(n.args[0], ast.Attribute) and n.args[0].attr == "pattern"]
         negs = [n for n in ast.walk(sk.node) if isinstance(n, ast.UnaryOp) and isinstance(n.op, ast.Not) and isinstance(n.operand, ast.Call) and call_name(n.operand) == "getattr"]
         ok = bool(lookups) and bool(negs)
         (run.ok(R1, f"{pkg} switch lookup", "skip iff the pattern's detect_* switch is off") if ok else run.finding(R1, f"{pkg}._should_skip_call", "switch-lookup", "the detect_* switch of the call's pattern is not consulted (or its polarity changed)", sk.loc))
@@ -82,8 +93,8 @@ def check(run, ctx):
     R2 = run.rule("R2", "sibling predicates: skip iff (is_in_test and allow_in_tests) [or a pattern/method switch]; analyze iff language == rust, content present, enabled, path not ignored", floor=6)
     skips = {
         "unwrap_abuse": repo.func("src.linters.unwrap_abuse.linter.UnwrapAbuseRule._should_skip_call"),
-        "clone_abuse": repo.func("src.linters.clone_abuse.linter._should_skip_call"),
-        "blocking_async": repo.func("src.linters.blocking_async.linter._should_skip_call"),
+        "clone_abuse": repo.func_by_role("src.linters.clone_abuse.linter._should_skip_call", "decides per call whether it is skipped", lambda g: g.cls is None and any(isinstance(n, ast.Attribute) and n.attr == "is_in_test" for n in ast.walk(g.node))),
+        "blocking_async": repo.func_by_role("src.linters.blocking_async.linter._should_skip_call", "decides per call whether it is skipped", lambda g: g.cls is None and any(isinstance(n, ast.Attribute) and n.attr == "is_in_test" for n in ast.walk(g.node))),
     }
     for pkg, f in skips.items():
         first = next((n for n in f.node.body if isinstance(n, ast.If)), None)
@@ -113,7 +124,7 @@ def check(run, ctx):
             cond = g0.ifs[0]
             skip = cond.operand if isinstance(cond, ast.UnaryOp) and isinstance(cond.op, ast.Not) else None
             pars = {a.arg for a in chk.node.args.args}
-            ok = (skip is not None and is_call_named(skip, "_should_skip_call") and len(skip.args) == 2 and isinstance(skip.args[0], ast.Name) and skip.args[0].id == g0.target.id
+            ok = (skip is not None and is_call_named(skip, skips[pkg].name) and len(skip.args) == 2 and isinstance(skip.args[0], ast.Name) and skip.args[0].id == g0.target.id
                   and isinstance(g0.iter, ast.Name) and g0.iter.id in pars)
         (run.ok(R2, f"{pkg} _build_violations", "one violation per non-skipped call") if ok else run.finding(R2, f"{pkg}._build_violations", "filter", "violations are not built for exactly the calls that _should_skip_call lets through", chk.loc))
 
